@@ -407,6 +407,73 @@ func ext۰reflect۰Value۰Float(fr *frame, args []value) value {
 	panic("reflect.Value.Float")
 }
 
+func ext۰reflect۰Value۰Bytes(fr *frame, args []value) value {
+	// Signature: func (reflect.Value) []byte
+	// Like the real method: any slice whose element kind is uint8 (the slice
+	// or element type may be named); everything else panics with a
+	// *reflect.ValueError. Addressable byte arrays are not modelled.
+	t := rV2T(args[0]).t
+	if t != nil {
+		if s, ok := t.Underlying().(*types.Slice); ok {
+			if b, ok := s.Elem().Underlying().(*types.Basic); ok && b.Kind() == types.Uint8 {
+				if v, ok := rV2V(args[0]).([]value); ok {
+					return v
+				}
+				return []value(nil)
+			}
+		}
+	}
+	panic(reflectValueError("reflect.Value.Bytes", reflectKind(t)))
+}
+
+// reflectConvertible: the conversions the model performs - the ones go/types
+// allows between two non-interface types (slice-to-array conversions, which
+// also depend on the length, are left out and answered "not convertible").
+func reflectConvertible(src, dst types.Type) bool {
+	if src == nil || dst == nil || types.IsInterface(dst) || types.IsInterface(src) {
+		return false
+	}
+	if _, ok := dst.Underlying().(*types.Array); ok {
+		if _, ok := src.Underlying().(*types.Slice); ok {
+			return false
+		}
+	}
+	return types.ConvertibleTo(src, dst)
+}
+
+func reflectTypeArg(v value) types.Type {
+	i, ok := v.(iface)
+	if !ok || i.t == nil {
+		return nil
+	}
+	return i.v.(rtype).t
+}
+
+func ext۰reflect۰Value۰CanConvert(fr *frame, args []value) value {
+	// Signature: func (reflect.Value, reflect.Type) bool
+	return reflectConvertible(rV2T(args[0]).t, reflectTypeArg(args[1]))
+}
+
+func ext۰reflect۰Value۰Convert(fr *frame, args []value) value {
+	// Signature: func (reflect.Value, reflect.Type) reflect.Value
+	src, dst := rV2T(args[0]).t, reflectTypeArg(args[1])
+	if !reflectConvertible(src, dst) {
+		ss, ds := "<nil>", "<nil>"
+		if src != nil {
+			ss = src.String()
+		}
+		if dst != nil {
+			ds = dst.String()
+		}
+		panic(targetPanic{iface{errorType, "reflect.Value.Convert: value of type " + ss + " cannot be converted to type " + ds}})
+	}
+	if types.Identical(src.Underlying(), dst.Underlying()) {
+		// a change of type only (what go/ssa emits as ChangeType): same representation
+		return makeReflectValue(dst, rV2V(args[0]))
+	}
+	return makeReflectValue(dst, conv(dst, src, rV2V(args[0])))
+}
+
 func ext۰reflect۰Value۰Interface(fr *frame, args []value) value {
 	// Signature: func (v reflect.Value) interface{}
 	return ext۰reflect۰valueInterface(fr, args)
